@@ -95,3 +95,103 @@ def fpdiv_jobs(fp_log):
             res["unsupported"].append("float division lemma not proved for x/%s %s %s: %s" % (d, op, c, r))
         out.append(res)
     return out
+
+
+# ---- per-shape rounding lemmas ------------------------------------------------------------------------------------
+# symx evaluates `int / int * const ...` exactly (core.Rat) and remembers the expression as the code wrote it.  For
+# every expression shape that decided an obligation the float evaluation (IEEE binary64, round-nearest-even; CPython's
+# int/int true division is correctly rounded for operands below 2^53) must give the same verdict.
+
+def shape_lemma(goal, shape, rels, pos, width, timeout_ms=900000):
+    """goal 'eq100': the float value is exactly 100.0 ; 'lt100': it is below 100.0 - for all integer leaves in
+    [0, 2^width) that satisfy the order relations `rels` (and are positive where listed in `pos`)."""
+    F = z3.Float64()
+    rm = z3.RNE()
+    idx = []
+
+    def scan(t):
+        if t[0] == "i":
+            idx.append(t[1])
+        elif t[0] != "c":
+            for x in t[1:]:
+                scan(x)
+    scan(shape)
+    n = (max(idx) + 1) if idx else 0
+    vs = [z3.BitVec("v%d" % i, width + 1) for i in range(n)]
+    s = z3.Solver()
+    s.set("timeout", timeout_ms)
+    for v in vs:
+        s.add(z3.ULT(v, 2 ** width))
+    for i in pos:
+        s.add(z3.UGT(vs[i], 0))
+    for i, j, r in rels:
+        s.add({"eq": vs[i] == vs[j], "lt": z3.ULT(vs[i], vs[j]), "le": z3.ULE(vs[i], vs[j]),
+               "gt": z3.UGT(vs[i], vs[j]), "ge": z3.UGE(vs[i], vs[j])}[r])
+
+    def ev(t):
+        k = t[0]
+        if k == "c":
+            return z3.FPVal(float(t[1]), F)
+        if k == "i":
+            return z3.fpUnsignedToFP(rm, vs[t[1]], F)
+        if k == "neg":
+            return z3.fpNeg(ev(t[1]))
+        a, b = ev(t[1]), ev(t[2])
+        if k == "div":
+            s.add(z3.Not(z3.fpIsZero(b)))      # the division was executed without ZeroDivisionError on the path
+            return z3.fpDiv(rm, a, b)
+        return {"mul": z3.fpMul, "add": z3.fpAdd, "sub": z3.fpSub}[k](rm, a, b)
+    val = ev(shape)
+    hundred = z3.FPVal(100.0, F)
+    s.add(z3.Not(z3.fpEQ(val, hundred) if goal == "eq100" else z3.fpLT(val, hundred)))
+    t = time.time()
+    r = s.check()
+    model = None
+    if r == z3.sat:
+        m = s.model()
+        model = [m.eval(v, model_completion=True).as_long() for v in vs]
+    return str(r), time.time() - t, model
+
+
+def _shape_star(a):
+    return shape_lemma(*a)
+
+
+def shape_jobs(results, width, prop, model_of=None):
+    """One lemma per distinct (goal, shape, relations) recorded by the jobs.  A refuted lemma becomes a failure of the
+    job that recorded it when `model_of(params, leaf values, relations)` can turn the leaf values into a job model
+    (replayed like any counterexample); otherwise it is inconclusive."""
+    import multiprocessing as mp
+    seen = {}
+    for r in results:
+        for e in r.get("fp_shapes", []):
+            key = repr(e)
+            if key not in seen or r["params"].get("shape") == "single":
+                seen[key] = (e, r)
+    items = list(seen.values())
+    args = [(e[0], e[1], e[2], e[3], width) for e, _ in items]
+    if len(args) > 1:
+        with mp.get_context("fork").Pool(min(16, len(args))) as pool:
+            rs = pool.map(_shape_star, args)
+    else:
+        rs = [shape_lemma(*a) for a in args]
+    out = []
+    for k, ((e, r0), (verdict, secs, model)) in enumerate(zip(items, rs)):
+        goal, shape, rels, pos = e
+        res = {"label": "lemma.fp-shape.%d.%s" % (k, goal), "func": r0["func"], "params": r0["params"], "failures": [], "known": [],
+               "unsupported": [], "witnesses": {},
+               "samples": [{"inputs": {"lemma": "float evaluation of %r under %r is %s for all integer leaves < 2^%d" % (shape, rels, goal, width),
+                                       "result": verdict, "recorded_by": r0["label"]}, "notes": {}, "decisions": 0}],
+               "stats": {"paths": 1, "queries": 1, "solver_s": round(secs, 2), "checks": 1,
+                         "checks_by_obligation": {"L-fp-shape": 1}}, "wall_s": round(secs, 2), "error": None}
+        if verdict == "sat":
+            jm = model_of(r0["params"], model, rels) if model_of else None
+            if jm is not None:
+                res["failures"].append({"obligation": "%s.float-%s" % (prop, goal), "model": jm, "notes": {},
+                                        "msg": "exact arithmetic says %s but the float expression %r does not for leaves %r" % (goal, shape, model)})
+            else:
+                res["unsupported"].append("rounding lemma refuted for %r (leaves %r, relations %r); no concrete scenario constructed" % (shape, model, rels))
+        elif verdict != "unsat":
+            res["unsupported"].append("rounding lemma for %r: solver answered %s" % (shape, verdict))
+        out.append(res)
+    return out
